@@ -87,7 +87,7 @@ func init() {
 	})
 	prop(&PropDef{
 		ID:          "C09",
-		Rules:       []string{"SIG-1", "SIG-2", "LOCK-1", "LOCK-2", "LOCK-3", "TAB-6", "PUB-1", "SEM-6", "WATCH-1", "LOG-3", "OWN-2", "WATCH-2", "SIG-3", "SIG-4"},
+		Rules:       []string{"SIG-1", "SIG-2", "LOCK-1", "LOCK-2", "LOCK-3", "TAB-6", "PUB-1", "SEM-6", "WATCH-1", "LOG-3", "OWN-2", "WATCH-2", "SIG-3", "SIG-4", "WATCH-3"},
 		Explanation: "The wake-up and close protocol of change streams: buffered signal channel, all sends non-blocking and after publication, registration in the critical section that reads the start position, blocking wait on signal and ctx with the stream lock released, close(signal) only under Stream.mutex guarded by !closed after tomb.Kill outside Engine.mutex, every Stream path that sets closed also unregisters; no lock-order cycle and no blocking under locks among Engine/Stream; invalidate triggers read the event kinds that are written.",
 		Decided:     []string{"start-at position (nil for i==0, List[i-1] otherwise) and found condition Compare(startAt, clusterTime) <= 0", "no lost wake-up by construction (buffer + send-after-publish + register-with-position)", "no send on / double close of a closed channel", "no deadlock between stream and engine locks"},
 		NotDecided:  []string{"exactly-once, in-order delivery and resume positions over a history", "lost-position detection arithmetic", "timing"},
